@@ -32,6 +32,11 @@ func slabHook(dim int, o, d V, b box) (mn, mx float64) {
 func (g *G) genSlab(dim int, full bool) {
 	b := g.randBox(dim)
 	o, d := g.aimRay(dim, []box{b}, full)
+	sig := g.dirScale()
+	d = d.scale(sig) // exact (power of two); the decisions must not depend on the length of the direction
+	if ss := g.sceneScale(); ss != 1 {
+		b, o, d = b.scale(ss), o.scale(ss), d.scale(ss)
+	}
 	kind := "slab"
 	if !full {
 		kind = "slabd"
@@ -68,12 +73,22 @@ func (g *G) genSlab(dim int, full bool) {
 	if plane {
 		g.Stat(kind+" origin-on-box-plane", 1)
 	}
+	if tinyDir(dim, d) {
+		g.Stat(kind+" tiny-dir-component(<1e-6)", 1)
+	}
+	if sig > 1 {
+		g.Stat(kind+" huge-direction", 1)
+	}
 }
 
 func (g *G) genPbd(dim int) {
 	b := g.randBox(dim)
 	c, r := g.aimSphere(dim, []box{b})
 	kind := "pbd" + strconv.Itoa(dim)
+	if ss := g.sceneScale(); ss != 1 {
+		b, c, r = b.scale(ss), c.scale(ss), r*ss
+		g.Stat(kind+" far from unit scale", 1)
+	}
 	op := (&toks{}).s("c08", kind).v(dim, c).f(r).b(dim, b).String()
 	impl := hlib.Guard(func() string {
 		var d2 float64
